@@ -285,6 +285,8 @@ package runner
 //@     assume old(r.canceling) ==> result != nil // Cancel cancels the context while it still holds the write lock (checked: Cancel's effect clause `lock-held at funcvalue`), so a reader that sees `canceling` sees a cancelled context; a cancelled context reports an error for ever
 //@   ensures #C07.success-records-zero result == nil && !t.Skipped && !old(t.Errored) ==> t.ExitCode == 0 && !t.Errored
 //@   ensures #C07.execute-failure-reported calls(execute) == 1 && gExecErr != nil ==> result != nil
+// a phase that fails fails the run: the condition (not evaluable), the before hooks, the compilation, the output's start
+//@   ensures #C07.failed-phase-reported (calls(checkTaskCondition) == 1 && gCondErr != nil) || (calls(before) == 1 && gBeforeErr != nil) || (calls(CompileTask) == 1 && gCompileErr != nil) || (calls(Start) == 1 && gStartErr != nil) || (calls(NewTaskOutput) == 1 && gOutErr != nil) ==> result != nil
 //@   ensures #C06.skipped-ran-nothing-else calls(checkTaskCondition) == 1 && !gCondMet && gCondErr == nil ==> result == nil && t.Skipped && calls(before) == 0 && calls(CompileTask) == 0 && calls(execute) == 0 && calls(after) == 0
 //@   ensures #C14.context-after-once calls(NewTaskOutput) == 1 && gOutErr == nil ==> calls(After) == 1
 //@   ensures #C14.after-hook-armed-right-after-before-hook gCtxOK ==> calls(NewTaskOutput) == 1 // once the context's before hook has run, nothing can return before the output is created and the deferred after hook is armed
@@ -321,6 +323,7 @@ package runner
 //@     ghost gStartErr = result
 //@   callsite execute
 //@     requires #C06.commands-after-before calls(before) == 1 && gBeforeErr == nil && calls(CompileTask) == 1 && gCompileErr == nil && calls(execute) == 0
+//@     requires #C06.output-started-before-commands calls(Start) == 1 && gStartErr == nil
 //@     ghost gExecErr = result
 //@   callsite storeTaskOutput
 //@     requires #C11.stored-only-after-success calls(execute) == 1 && gExecErr == nil && calls(storeTaskOutput) == 0
